@@ -270,6 +270,17 @@ def tosym(x):
 
 # ---------------------------------------------------------------------------------------------
 
+ABSTRACT = [None]     # size threshold for let-abstraction of products (set per path by a harness; None = off)
+
+
+def _maybe_abstract(s):
+    th = ABSTRACT[0]
+    if th is not None and (len(s.t) > th or (s.u is not None and len(s.u) > th)):
+        from . import engine
+        return engine.current().abstract(s)
+    return s
+
+
 class Sym:
     """complex scalar with polynomial real part `t` and imaginary part `u` (None = identically 0)"""
     __slots__ = ('t', 'u')
@@ -313,8 +324,12 @@ class Sym:
         if o is None:
             return NotImplemented
         if self.u is None and o.u is None:
-            return Sym(padd(self.t, o.t))
-        return Sym(padd(self.t, o.t), padd(self.u or {}, o.u or {}))
+            r = Sym(padd(self.t, o.t))
+        else:
+            r = Sym(padd(self.t, o.t), padd(self.u or {}, o.u or {}))
+        if ABSTRACT[0] is not None:
+            return _maybe_abstract(r)
+        return r
     __radd__ = __add__
 
     def __neg__(self):
@@ -342,10 +357,14 @@ class Sym:
         if o is None:
             return NotImplemented
         if self.u is None and o.u is None:
-            return Sym(pmul(self.t, o.t))
-        a, b = self.t, self.u or {}
-        c, d = o.t, o.u or {}
-        return Sym(psub(pmul(a, c), pmul(b, d)), padd(pmul(a, d), pmul(b, c)))
+            r = Sym(pmul(self.t, o.t))
+        else:
+            a, b = self.t, self.u or {}
+            c, d = o.t, o.u or {}
+            r = Sym(psub(pmul(a, c), pmul(b, d)), padd(pmul(a, d), pmul(b, c)))
+        if ABSTRACT[0] is not None:
+            return _maybe_abstract(r)
+        return r
     __rmul__ = __mul__
 
     def __truediv__(self, o):
